@@ -85,13 +85,14 @@ func ski(pub crypto.PublicKey) []byte {
 }
 
 type CAOpts struct {
-	Name     pkix.Name
-	RSA      bool
-	KeyUsage x509.KeyUsage // 0 => CertSign|CRLSign
-	NoKU     bool
-	Serial   *big.Int
-	OCSPSign bool // EKU OCSPSigning (for delegated responders)
-	NotCA    bool
+	Name       pkix.Name
+	RSA        bool
+	KeyUsage   x509.KeyUsage // 0 => CertSign|CRLSign
+	NoKU       bool
+	Serial     *big.Int
+	RawSubject []byte // DER Name used verbatim as the subject (attribute order and types as given)
+	OCSPSign   bool   // EKU OCSPSigning (for delegated responders)
+	NotCA      bool
 }
 
 func NewRootCA(cn string, rsaAlg bool) *CA {
@@ -124,6 +125,9 @@ func newCert(parent *CA, o CAOpts) *CA {
 	}
 	if o.OCSPSign {
 		tmpl.ExtKeyUsage = []x509.ExtKeyUsage{x509.ExtKeyUsageOCSPSigning}
+	}
+	if o.RawSubject != nil {
+		tmpl.RawSubject = o.RawSubject
 	}
 	signerCert, signerKey := tmpl, key
 	if parent != nil {
